@@ -7,19 +7,22 @@
   There is no process structure in the model (the posix backend keeps no in-process state about
   objects), so the statements cover one gateway process as well as several on the same storage.
 
-  `Cfg` says which code shape is meant (`Model.Conc.Variant.cfg`, one constant `codeVariant`):
-  `strat ∈ {otmp, mktemp}` with `rmode = byPath` is the code as it is (Linux build, with and without
-  O_TMPFILE); `portable` is the non-Linux build's publication; `otmpOld` / `mktempOld` are the
-  REGRESSION variants (publication by remove-then-link, the code before commit 4399f3e); `byFd` is
-  the proposed fix of GetObject/HeadObject (docs/C05-fix-2.diff).
+  The MAIN theorems (section "the code as it is") are unconditional statements about
+  `cur otmp = codeVariant.cfg otmp`, the configuration of the code under test with and without
+  O_TMPFILE: inode_complete_inv, linked_inode_complete, get_body_single_write, get_single_write,
+  overwrite_never_missing, linearizable (refinement to the atomic register of Spec.Register),
+  acked_write_published, read_after_ack_fresh. They are instances of theorems by code SHAPE
+  (`…_of_shape`, hypotheses on `Cfg`), which also cover the non-Linux build (`portable`).
 
-  Each clause of the property is a `def …_full (c : Cfg) : Prop`. Where the code as it is violates a
-  clause the negation is proved in `Open/C05.lean` from a concrete schedule, and the `_partial`
-  theorem here carries the hypothesis under which the clause does hold.
+  The REGRESSION models (`Variant.old`: publication by remove-then-link, reads by path, CopyObject
+  failing on its final stat — the code before 4399f3e / 109ae9c / 4e82e48) violate the clauses; the
+  witnesses are `example`s in `Open/C05.lean`, and the check reports such behaviour of the real
+  gateway as a violation.
 -/
 import Vgw.Lemmas.ConcMissing
 import Vgw.Lemmas.ConcFd
 import Vgw.Lemmas.ConcLin5
+import Vgw.Lemmas.ConcAck
 import Vgw.Model.ConcHist
 import Vgw.Spec.Register
 namespace Vgw.Props.C05
@@ -30,7 +33,7 @@ open Vgw.Model.Conc
 def IsValue (fs0 : FS) (rqs : List Req) (ino : Inode) : Prop :=
   ino ∈ fs0.inodes ∨ ∃ rq ∈ rqs, rq.kind.isWrite = true ∧ ino = written rq
 
-/-! ## what holds for the code as it is, for every strategy and every interleaving -/
+/-! ## invariants that hold for every variant and every interleaving -/
 
 /-- **Every inode ever published under the key carries the data and ALL attributes of exactly one
 write**: the attributes are written through the descriptor before the publication step. -/
@@ -84,13 +87,31 @@ def overwrite_never_missing_full (c : Cfg) : Prop :=
     rqs[i]? = some rq → rq.kind.isRead = true → s.resp i ≠ some .noSuchKey
 
 /-- a read that starts (takes its first step) in a state `s` never looks at an inode older than the
-    newest one published up to `s` — in particular none older than any write acknowledged by then. -/
-def read_after_ack_fresh_full (c : Cfg) : Prop :=
+    newest one published up to `s`. -/
+def read_views_fresh_full (c : Cfg) : Prop :=
   ∀ (fs0 : FS) (rqs : List Req) (s s' : State) (i : Nat) (rq rq' : Req) (l l' : Local),
     KeyLast fs0 → Reach c (init c fs0 rqs) s → Reach c s s' →
     s.reqs[i]? = some (rq, l) → l.views = [] → s'.reqs[i]? = some (rq', l') →
     (∀ v, some v ∈ l'.views → s.fs.inodes.length ≤ v + 1) ∧
     (∀ k, l'.fd = some k → l.fd = none → s.fs.inodes.length ≤ k + 1)
+
+/-- a read that starts after a write was acknowledged never returns older data: if write `j` has
+    answered 200 in state `s` and reader `i` has not taken a step yet in `s`, then whatever `i`
+    answers later is the whole object of an inode published not before `j`'s (inode ids are in
+    publication order). -/
+def read_after_ack_fresh_full (c : Cfg) : Prop :=
+  ∀ (fs0 : FS) (rqs : List Req) (s s' : State) (i j : Nat) (rqi rqj : Req) (r : ReadResp),
+    KeyLast fs0 → Reach c (init c fs0 rqs) s → Reach c s s' →
+    rqs[j]? = some rqj → rqj.kind.isWrite = true → s.resp j = some .ok →
+    s.reqs[i]? = some (rqi, { prog := program c rqi }) → s'.resp i = some (.read r) →
+    ∃ (p k : Nat) (ino : Inode), s.fs.inodes[p]? = some (written rqj) ∧ s'.fs.inodes[k]? = some ino ∧ p ≤ k ∧
+      r = observe ino (rqi.kind == .head)
+
+/-- an acknowledged write has been published: its complete object is in the inode table. -/
+def acked_write_published_full (c : Cfg) : Prop :=
+  ∀ (fs0 : FS) (rqs : List Req) (s : State) (j : Nat) (rqj : Req),
+    KeyLast fs0 → Reach c (init c fs0 rqs) s → rqs[j]? = some rqj → rqj.kind.isWrite = true →
+    s.resp j = some .ok → written rqj ∈ s.fs.inodes
 
 /-- the answers of all requests are explained by ONE order that respects real time: the history of
     every run (operations, invocation = first step, response = last step, answers) is linearizable
@@ -100,15 +121,12 @@ def linearizable_full (c : Cfg) : Prop :=
   ∀ (fs0 : FS) (rqs : List Req) (s : State), KeyLast fs0 → Reach c (init c fs0 rqs) s →
     Vgw.Spec.Register.Linearizable observe fs0.cur (histOf rqs s)
 
-/-! ## `_partial` theorems and the clauses that hold in full -/
+/-! ## theorems by code shape -/
 
-/-- **Never missing — holds for the code as it is** (`otmp`: linkat into a free name, else link to
-a temp name and rename over the object; `mktemp`: rename; also the non-Linux build), whatever the read
-mode, under every interleaving of any number of writers and readers: a key that exists and is only
-being overwritten is found by every GET/HEAD. (The regression variants `otmpOld` / `mktempOld`, which
-remove the name first, violate it: witness in `Open/C05.lean`; the check reports that window as a
-violation should it ever return.) -/
-theorem overwrite_never_missing (c : Cfg) (hs : c.strat = .otmp ∨ c.strat = .mktemp ∨ c.strat = .portable) :
+/-- Never missing, by shape: publication that never removes the name (`otmp`: linkat into a free name,
+else link to a temp name and rename over the object; `mktemp`: rename; `portable`), whatever the read
+mode. -/
+theorem overwrite_never_missing_of_shape (c : Cfg) (hs : c.strat = .otmp ∨ c.strat = .mktemp ∨ c.strat = .portable) :
     overwrite_never_missing_full c := by
   intro fs0 rqs s i rq h0 hk hd hreach hi hrd hresp
   obtain ⟨nm, g⟩ := NMInv_reach hs h0 hk hd hreach
@@ -121,22 +139,14 @@ theorem overwrite_never_missing (c : Cfg) (hs : c.strat = .otmp ∨ c.strat = .m
   subst this
   exact (nm.rd _ hmem hrd).2.1 hres
 
-/-- … instantiated for the variant the code under test has. -/
-theorem overwrite_never_missing_code (otmp : Bool) : overwrite_never_missing_full (codeVariant.cfg otmp) := by
-  apply overwrite_never_missing
-  cases otmp <;> simp [codeVariant, Variant.cfg]
-
 theorem req_of_index {fs0 : FS} {rqs : List Req} {s : State} (g : GInv fs0 rqs s) {i : Nat} {rq rq' : Req} {l : Local}
     (hi : rqs[i]? = some rq) (hi' : s.reqs[i]? = some (rq', l)) : rq' = rq := by
   have h2 : (s.reqs.map (·.1))[i]? = some rq' := by rw [List.getElem?_map, hi']; rfl
   rw [g.reqs, hi] at h2; exact (Option.some.inj h2).symm
 
-/-- **Single write, for reads through the descriptor** (the shape of the proposed fix of
-GetObject/HeadObject: open first, then fstat and the attributes of the opened file): under every
-interleaving, with every publication strategy, a successful GET/HEAD answers body, length, ETag and
-metadata of one and the same write. False for the code as it is (stat, attributes and open each by
-path): `Open.C05.get_single_write_false`. -/
-theorem get_single_write_byFd (c : Cfg) (hm : c.rmode = .byFd) : get_single_write_full c := by
+/-- Single write, by shape: reads through the descriptor (open first, then fstat and the attributes of
+the opened file), with every publication strategy. -/
+theorem get_single_write_of_shape (c : Cfg) (hm : c.rmode = .byFd) : get_single_write_full c := by
   intro fs0 rqs s i rq r h0 hreach hi hresp
   obtain ⟨fd, g⟩ := FdInv_reach hm h0 hreach
   obtain ⟨rq', l, hi', hres⟩ := resp_spec hresp
@@ -153,30 +163,18 @@ theorem get_single_write_byFd (c : Cfg) (hm : c.rmode = .byFd) : get_single_writ
     simp only [Option.some.injEq, Resp.read.injEq] at hres
     exact ⟨ino, g.vals ino (List.mem_of_getElem? a2), by rw [← hres]; rfl⟩
 
-/-- **Linearizable, for the code's publication and reads through the descriptor** (the code as it is
-plus the proposed fix of GetObject/HeadObject, `Variant.proposed`): for any number of concurrent PUT / COPY / multipart-complete /
-DELETE / GET / HEAD requests and every interleaving of their filesystem steps, the answers are
-explained by one order that respects real time — refinement to the atomic register of
-Spec.Register, linearization points: the rename of a write, the unlink (or the stat that finds
-nothing) of a DELETE, the open of a read. False for the code as it is: `Open.C05.linearizable_false`. -/
-theorem linearizable_partial (c : Cfg) (hs : c.strat = .otmp ∨ c.strat = .mktemp ∨ c.strat = .portable) (hm : c.rmode = .byFd) :
+/-- Linearizable, by shape: publication that never removes the name and reads through the descriptor.
+Linearization points: a successful linkat or the rename of a write, the unlink (or the stat that
+finds nothing) of a DELETE, the open of a read. -/
+theorem linearizable_of_shape (c : Cfg) (hs : c.strat = .otmp ∨ c.strat = .mktemp ∨ c.strat = .portable) (hm : c.rmode = .byFd) :
     linearizable_full c := by
   intro fs0 rqs s h0 hreach
   obtain ⟨L, fd, g⟩ := LInv_reach hs hm h0 hreach
   exact linearizable_of_inv g fd L
 
-/-- … instantiated for the proposed variant: with docs/C05-fix-2 applied every clause holds. -/
-theorem proposed_variant_all_clauses (otmp : Bool) :
-    get_single_write_full (Variant.proposed.cfg otmp) ∧ overwrite_never_missing_full (Variant.proposed.cfg otmp) ∧
-    linearizable_full (Variant.proposed.cfg otmp) := by
-  have hs : (Variant.proposed.cfg otmp).strat = .otmp ∨ (Variant.proposed.cfg otmp).strat = .mktemp ∨
-      (Variant.proposed.cfg otmp).strat = .portable := by cases otmp <;> simp [Variant.cfg]
-  exact ⟨get_single_write_byFd _ rfl, overwrite_never_missing _ hs, linearizable_partial _ hs rfl⟩
-
-/-- **Read-after-acknowledge freshness holds for the code as it is** (every strategy, both read
-modes): whatever a read looks at is the key's current entry at that moment, and that is always the
-newest inode. -/
-theorem read_after_ack_fresh (c : Cfg) : read_after_ack_fresh_full c := by
+/-- Freshness of what a read looks at, for every variant: whatever a read looks at is the key's current
+entry at that moment, and that is always the newest inode. -/
+theorem read_views_fresh (c : Cfg) : read_views_fresh_full c := by
   intro fs0 rqs s s' i rq rq' l l' h0 hr hr' hi hv hi'
   have key : ∀ s2, Reach c s s2 → FreshInv s.fs.inodes.length i s2 ∧
       (∀ rq2 l2, s2.reqs[i]? = some (rq2, l2) → ∀ k, l2.fd = some k → l.fd = none → s.fs.inodes.length ≤ k + 1) := by
@@ -213,6 +211,74 @@ theorem read_after_ack_fresh (c : Cfg) : read_after_ack_fresh_full c := by
   obtain ⟨f, g⟩ := key s' hr'
   exact ⟨f.2 rq' l' hi', g rq' l' hi'⟩
 
+/-- Acknowledged ⇒ published, by shape. -/
+theorem acked_write_published_of_shape (c : Cfg) (hs : c.strat = .otmp ∨ c.strat = .mktemp ∨ c.strat = .portable)
+    (hm : c.rmode = .byFd) : acked_write_published_full c := by
+  intro fs0 rqs s j rqj h0 hreach hj hw hresp
+  obtain ⟨A, _, _, g⟩ := AckInv_reach hs hm h0 hreach
+  obtain ⟨rq', l, hi', hdone, _⟩ := resp_done hresp
+  have := req_of_index g hj hi'
+  subst this
+  exact A _ (List.mem_of_getElem? hi') hw (passed_of_done rq' l hdone)
+
+/-- Read-after-acknowledge freshness, by shape. -/
+theorem read_after_ack_fresh_of_shape (c : Cfg) (hs : c.strat = .otmp ∨ c.strat = .mktemp ∨ c.strat = .portable)
+    (hm : c.rmode = .byFd) : read_after_ack_fresh_full c := by
+  intro fs0 rqs s s' i j rqi rqj r h0 hr hr' hj hw hack hi hresp
+  have hpub := acked_write_published_of_shape c hs hm fs0 rqs s j rqj h0 hr hj hw hack
+  obtain ⟨p, hp⟩ := List.getElem?_of_mem hpub
+  have hplt : p < s.fs.inodes.length := (List.getElem?_eq_some_iff.1 hp).1
+  have hreach' := Reach.trans hr hr'
+  obtain ⟨fd, g'⟩ := FdInv_reach hm h0 hreach'
+  obtain ⟨rq', l', hi', hres⟩ := resp_spec hresp
+  have hmem : (rq', l') ∈ s'.reqs := List.mem_of_getElem? hi'
+  have hrd := ResKindInv_reach hreach' _ hmem r hres
+  -- the request at index i is the same request in s and s'
+  have g := GInv_reach h0 hr
+  have hrqi : rqs[i]? = some rqi := by rw [← g.reqs, List.getElem?_map, hi]; rfl
+  have := req_of_index g' hrqi hi'
+  subst this
+  cases fd _ hmem hrd with
+  | fresh _ _ a3 _ => rw [a3] at hres; cases hres
+  | running _ _ _ _ a3 => rw [a3] at hres; cases hres
+  | failed _ a2 _ => rw [a2] at hres; cases hres
+  | answered k ino a1 a2 _ a4 =>
+    rw [a4] at hres
+    simp only [Option.some.injEq, Resp.read.injEq] at hres
+    have hfresh := (read_views_fresh c fs0 rqs s s' i rq' rq' _ l' h0 hr hr' hi rfl hi').2 k a1 rfl
+    exact ⟨p, k, ino, hp, a2, by omega, by rw [← hres]; rfl⟩
+
+/-! ## the code as it is — the main theorems -/
+
+/-- the configuration of the code under test, with (`true`) and without (`false`, `--disableotmp`) O_TMPFILE. -/
+def cur (otmp : Bool) : Cfg := codeVariant.cfg otmp
+
+theorem cur_shape (otmp : Bool) :
+    ((cur otmp).strat = .otmp ∨ (cur otmp).strat = .mktemp ∨ (cur otmp).strat = .portable) ∧ (cur otmp).rmode = .byFd := by
+  cases otmp <;> simp [cur, codeVariant, Variant.cfg]
+
+/-- **Every successful GET/HEAD answers body, length, ETag and metadata of one and the same write** —
+for any number of concurrent writers, deleters and readers of the key and every interleaving. -/
+theorem get_single_write (otmp : Bool) : get_single_write_full (cur otmp) :=
+  get_single_write_of_shape _ (cur_shape otmp).2
+
+/-- **A key that exists and is only being overwritten never appears missing.** -/
+theorem overwrite_never_missing (otmp : Bool) : overwrite_never_missing_full (cur otmp) :=
+  overwrite_never_missing_of_shape _ (cur_shape otmp).1
+
+/-- **All outcomes are explained by one order that respects real time**: every run's history is
+linearizable with respect to the atomic register holding the complete object of one write. -/
+theorem linearizable (otmp : Bool) : linearizable_full (cur otmp) :=
+  linearizable_of_shape _ (cur_shape otmp).1 (cur_shape otmp).2
+
+/-- **An acknowledged write has been published** (its complete object is in the inode table). -/
+theorem acked_write_published (otmp : Bool) : acked_write_published_full (cur otmp) :=
+  acked_write_published_of_shape _ (cur_shape otmp).1 (cur_shape otmp).2
+
+/-- **A read that starts after a write was acknowledged never returns older data.** -/
+theorem read_after_ack_fresh (otmp : Bool) : read_after_ack_fresh_full (cur otmp) :=
+  read_after_ack_fresh_of_shape _ (cur_shape otmp).1 (cur_shape otmp).2
+
 /-! ## non-vacuity (tests on concrete runs, not proofs of the clauses) -/
 
 /-- a PUT over an existing object, a GET after it: the published inode is B's whole object and the
@@ -220,7 +286,7 @@ theorem read_after_ack_fresh (c : Cfg) : read_after_ack_fresh_full c := by
 example :
     let wA : Write := { blob := ⟨1, 3⟩, attrs := [(.umeta 0, 1), (.etag, 1)] }
     let wB : Write := { blob := ⟨2, 5⟩, attrs := [(.umeta 0, 2), (.checksums, 2), (.etag, 2), (.ctype, 2)] }
-    let c : Cfg := ⟨.otmp, .byPath⟩
+    let c : Cfg := cur true
     let s := run c (init c { inodes := [inodeOf wA], key := some 0 } [{ kind := .put, w := wB }, { kind := .get }])
               (List.replicate 12 0 ++ List.replicate 16 1)
     s.fs.inodes[1]? = some (inodeOf wB) ∧ s.resp 1 = some (.read (observe (inodeOf wB) false)) := by decide
@@ -229,17 +295,17 @@ example :
 example :
     let wA : Write := { blob := ⟨1, 3⟩, attrs := [(.etag, 1)] }
     let wB : Write := { blob := ⟨2, 5⟩, attrs := [(.etag, 2)] }
-    let c : Cfg := ⟨.otmp, .byPath⟩
+    let c : Cfg := cur true
     let s := run c (init c { inodes := [inodeOf wA], key := some 0 } [{ kind := .put, w := wB }, { kind := .get }])
               ([0, 0, 0, 0, 0, 0] ++ List.replicate 16 1)
     s.resp 1 = some (.read (observe (inodeOf wA) false)) := by decide
 
-/-- the fixed shapes on the two schedules that break the code as it is: the answers are those of one
-    write and the history is accepted by the executable oracle. -/
+/-- the schedule that tears a by-path read (Open/C05): the code as it is answers exactly A, and the
+    read is linearized before the overwrite. -/
 example :
     let wA : Write := { blob := ⟨1, 1⟩, attrs := [(.umeta 0, 1), (.etag, 1)] }
     let wB : Write := { blob := ⟨2, 1⟩, attrs := [(.umeta 0, 2), (.etag, 2)] }
-    let c : Cfg := ⟨.otmp, .byFd⟩
+    let c : Cfg := cur true
     let s := run c (init c { inodes := [inodeOf wA], key := some 0 } [{ kind := .put, w := wB }, { kind := .get }])
               ([1, 1, 1, 1] ++ List.replicate 12 0 ++ List.replicate 12 1)
     s.resp 1 = some (.read (observe (inodeOf wA) false)) ∧ s.resp 0 = some .ok ∧
